@@ -71,7 +71,8 @@ def extra(chk, thorough):
                 want.append("M:%d:%s" % (int(req.header), hexs(bytes(req.to_frame().hl_packet.data))))
             got = chk.model.batch(["reasm %s" % hexs(wire)])[0].split(" // ")[0].split(";")
             chk.evaluations += 1
-            if got != want and bad is None:
+            # each request arrives intact, exactly once; the order across requests is the scheduler's business (C07/C14)
+            if sorted(got) != sorted(want) and bad is None:
                 bad = (kinds, [g[:40] for g in got], [w[:40] for w in want])
         finally:
             r.close()
